@@ -29,11 +29,17 @@ Record mstate := mk_mstate {
                                                tx -> (node's verdict: true accepted / false rejected); a
                                                transaction answered `already in chain` is listed in m_memo27 *)
   m_memo27 : list N;
-  m_deficit : N                             (* blocks missing from the 6-block cache: disconnections not yet
+  m_deficit : N;                            (* blocks missing from the 6-block cache: disconnections not yet
                                                made up for by connections *)
+  m_owed : list ((N * N) * blob)            (* uuid -> blob of every appointment the tower acknowledged (AddOk) and
+                                               that has not come to one of the ends the property names since:
+                                               responded, dropped as undecryptable / rejected when its dispute was
+                                               seen, replaced by its owner, owner purged.  Kept from the replies
+                                               alone, NOT from the tables: an accepted appointment the tower lost
+                                               for any other reason is still owed an answer *)
 }.
 
-Definition m_init (h0 : N) : mstate := mk_mstate h0 [] [] [] [] [] [] 0.
+Definition m_init (h0 : N) : mstate := mk_mstate h0 [] [] [] [] [] [] 0 [].
 
 (* ---------- small helpers ---------- *)
 Definition blob_eqb (a b : blob) : bool :=
@@ -318,7 +324,15 @@ Definition mon_C01 (m : mstate) (pre : obs) (o : op) (sc : script) (x : out)
       chk (forallb (fun a =>
                       implb (memN (a_loc a) txs && has_user post (a_user a)
                              && negb (existsb (fun k => uuid_eqb (trk_uuid k) (app_uuid a)) (o_trks pre)))
-                            (breach_answered m h sc rpcs (a_loc a) a post)) (o_apps pre)) 1
+                            (breach_answered m h sc rpcs (a_loc a) a post)) (o_apps pre)) 1 ++
+      (* the same for every acknowledged appointment still owed an answer, whatever the tables say: if the
+         tower dropped it for a reason the property does not name, its breach goes unanswered here *)
+      chk (forallb (fun e =>
+                      let uuid := fst e in
+                      implb (memN (fst uuid) txs && has_user post (snd uuid)
+                             && negb (existsb (fun k => uuid_eqb (trk_uuid k) uuid) (o_trks pre)))
+                            (breach_answered m h sc rpcs (fst uuid) (mk_app (fst uuid) (snd uuid) (snd e) 0 0 0) post))
+                   (m_owed m)) 1
   | OAdd (Some u) loc b delay sig, OAddRes (AddOk start _ _ _) =>
       (* code 1: the dispute is in a block the cache holds; code 101: it is in one of the six most
          recent blocks but the cache is truncated at this moment (known finding, DESIGN.md section 6) *)
@@ -405,11 +419,38 @@ Definition mon_C04 (m : mstate) (pre : obs) (o : op) (sc : script) (x : out)
 (* ---------- C11 (sequential half): nothing aborts ---------- *)
 Definition mon_C11 (x : out) : list N := match x with OAbort _ => [11] | _ => [] end.
 
+(* ---------- the ghost set of acknowledged appointments still owed an answer ---------- *)
+Definition owed_step (m : mstate) (o : op) (sc : script) (x : out) (post : obs) : list ((N * N) * blob) :=
+  let drop uuid := filter (fun e : (N * N) * blob => negb (uuid_eqb (fst e) uuid)) (m_owed m) in
+  match o, x with
+  | OAdd (Some u) loc b _ _, OAddRes (AddOk _ _ _ _) =>
+      (* held untriggered afterwards: owed (this version replaces the previous one); responded or dropped
+         at once because its dispute is in the cache: no longer owed *)
+      if existsb (fun a => uuid_eqb (app_uuid a) (loc, u) && blob_eqb (a_blob a) b) (o_apps post)
+         && negb (existsb (fun k => uuid_eqb (trk_uuid k) (loc, u)) (o_trks post))
+      then ((loc, u), b) :: drop (loc, u) else drop (loc, u)
+  | OConnect _ txs, OBlockRes =>
+      let h := m_height m + 1 in
+      filter (fun e : (N * N) * blob =>
+                let uuid := fst e in
+                has_user post (snd uuid) &&
+                (negb (memN (fst uuid) txs)
+                 || match decrypt (snd e) (fst uuid) with
+                    | None => false                                     (* undecryptable: dropped *)
+                    | Some p => match penalty_verdict m h sc p with
+                                | V_neither => true                      (* neither taken nor rejected: still owed *)
+                                | _ => false                             (* responded / rejected *)
+                                end
+                    end)) (m_owed m)
+  | _, _ => m_owed m
+  end.
+
 (* ---------- the combined step ---------- *)
 Definition mon_step (c : config) (m : mstate) (pre : obs) (o : op) (sc : script) (x : out)
            (rpcs : list (rpc_kind * N)) (post : obs) : list N * mstate :=
   let '(f7, ledger) := mon_C07 c m pre o x post in
   let '(f8, last) := mon_C08 m pre o sc x post in
+  let owed := owed_step m o sc x post in
   let fails := mon_C01 m pre o sc x rpcs post ++ mon_C02 m pre o sc x rpcs post ++ mon_C04 m pre o sc x rpcs post
                ++ mon_C06 m pre o x post ++ f7 ++ f8 ++ mon_C09 c m pre o x post ++ mon_C11 x in
   (* what was given to the node in this step joins the memo (first answer wins) *)
@@ -429,11 +470,11 @@ Definition mon_step (c : config) (m : mstate) (pre : obs) (o : op) (sc : script)
     match o, x with
     | OConnect _ txs, OBlockRes =>
         mk_mstate (m_height m + 1) ((m_height m + 1, txs) :: m_chain m)
-                  (filter (fun e => has_user post (fst e)) ledger) last [] [] [] (m_deficit m - 1)
+                  (filter (fun e => has_user post (fst e)) ledger) last [] [] [] (m_deficit m - 1) owed
     | ODisconnect, OBlockRes =>
         mk_mstate (m_height m - 1) (tl (m_chain m)) ledger last (m_height m :: m_disc m) (fst memo) (snd memo)
-                  (N.min (Z.to_N CACHE_SIZE) (m_deficit m + 1))
-    | _, _ => mk_mstate (m_height m) (m_chain m) ledger last (m_disc m) (fst memo) (snd memo) (m_deficit m)
+                  (N.min (Z.to_N CACHE_SIZE) (m_deficit m + 1)) owed
+    | _, _ => mk_mstate (m_height m) (m_chain m) ledger last (m_disc m) (fst memo) (snd memo) (m_deficit m) owed
     end in
   (fails, m').
 
